@@ -716,6 +716,83 @@ func serveUDPBacklog(slowMs, burst int) string {
 	return fmt.Sprintf("b got %d/1 waited %d slowhandled %d serving %d", got, waited, slowHandled.Load(), stillServing)
 }
 
+// serveUDPOrder: one peer sends `burst` well-formed non-confirmable requests back to back (more than the connection's
+// receive queue holds) while the handler is busy with the first one for slowMs; the handler must see them in the order in
+// which they arrived (one socket pair on loopback: the order in which they were sent).
+func serveUDPOrder(slowMs, burst int) string {
+	l, err := coapNet.NewListenUDP("udp4", "127.0.0.1:0")
+	if err != nil {
+		return "rig-error listen"
+	}
+	defer l.Close()
+	r := mux.NewRouter()
+	var mu sync.Mutex
+	var seen []int
+	_ = r.Handle("/seq", mux.HandlerFunc(func(w mux.ResponseWriter, req *mux.Message) {
+		tok := req.Token()
+		mu.Lock()
+		first := len(seen) == 0
+		if len(tok) == 2 {
+			seen = append(seen, int(tok[1]))
+		}
+		mu.Unlock()
+		if first {
+			select {
+			case <-time.After(time.Duration(slowMs) * time.Millisecond):
+			case <-w.Conn().Context().Done():
+			}
+		}
+	}))
+	s := udp.NewServer(options.WithMux(r), options.WithErrors(func(error) {}))
+	served := make(chan error, 1)
+	go func() { served <- s.Serve(l) }()
+	addr := l.LocalAddr().(*net.UDPAddr)
+	time.Sleep(30 * time.Millisecond)
+	a, err := net.DialUDP("udp4", nil, addr)
+	if err != nil {
+		return "rig-error dial"
+	}
+	defer a.Close()
+	for i := 0; i < burst; i++ {
+		m := pool.NewMessage(context.Background())
+		m.SetCode(codes.POST)
+		m.SetToken(message.Token{0xB0, byte(i)})
+		_ = m.SetPath("/seq")
+		m.SetType(message.NonConfirmable)
+		m.SetMessageID(int32(3000 + i))
+		b, _ := m.MarshalWithEncoder(udpcoder.DefaultCoder)
+		_, _ = a.Write(b)
+	}
+	deadline := time.Now().Add(time.Duration(slowMs)*time.Millisecond + 2*time.Second)
+	for time.Now().Before(deadline) {
+		mu.Lock()
+		n := len(seen)
+		mu.Unlock()
+		if n >= burst {
+			break
+		}
+		time.Sleep(5 * time.Millisecond)
+	}
+	s.Stop()
+	select {
+	case <-served:
+	case <-time.After(5 * time.Second):
+	}
+	mu.Lock()
+	defer mu.Unlock()
+	bad := -1
+	for i := 1; i < len(seen); i++ {
+		if seen[i] <= seen[i-1] {
+			bad = i
+			break
+		}
+	}
+	if bad >= 0 {
+		return fmt.Sprintf("order handled %d/%d broken at %d: %d after %d", len(seen), burst, bad, seen[bad], seen[bad-1])
+	}
+	return fmt.Sprintf("order handled %d/%d ascending", len(seen), burst)
+}
+
 // ---------------------------------------------------------------- DTLS
 
 // firstWriteOnly lets the first datagram (the ClientHello) through and loses everything written afterwards: the
@@ -1309,6 +1386,8 @@ func TestC10(t *testing.T) {
 			msgs, _ := strconv.Atoi(f[5])
 			if f[1] == "udpwild" {
 				fmt.Fprintln(w, serveUDPWild(good)) // serve udpwild <seed> <slowMs> <unused> <unused>
+			} else if f[1] == "udporder" {
+				fmt.Fprintln(w, serveUDPOrder(good, bad)) // serve udporder <seed> <slowMs> <burst> <unused>
 			} else if f[1] == "udpbacklog" {
 				fmt.Fprintln(w, serveUDPBacklog(good, bad)) // serve udpbacklog <seed> <slowMs> <burst> <unused>
 			} else if f[1] == "udp" {
